@@ -123,6 +123,7 @@ class Builder:
         self.n = NFA()
         self.flags = flags
         self.dropped = []
+        self.cuts = []            # possessive / atomic constructs: the matcher no longer tries every split
         self.groups = {}          # group index -> (subtree, flags)
 
     def icase(self, fl):
@@ -211,6 +212,8 @@ class Builder:
             return e
         if op in (sc.MAX_REPEAT, sc.MIN_REPEAT) or op is getattr(sc, "POSSESSIVE_REPEAT", None):
             lo, hi, sub = av
+            if op is getattr(sc, "POSSESSIVE_REPEAT", None):
+                self.cuts.append("possessive repeat")
             for _ in range(lo):
                 cur = self.seq(sub, cur, fl)
             if hi is sc.MAXREPEAT:
@@ -237,6 +240,7 @@ class Builder:
             self.dropped.append((str(op), av))
             return cur
         if op is getattr(sc, "ATOMIC_GROUP", None):
+            self.cuts.append("atomic group")
             return self.seq(av, cur, fl)
         raise RxError(f"unsupported regex construct {op}")
 
@@ -383,6 +387,7 @@ class Compiled:
         self.lead = None     # ('in'|'notin', mask) edge look-behind
         self.trail = None    # ('in'|'notin', mask) edge look-ahead
         self.notes = []
+        self.cuts = []
         self.tree = None
 
     @property
@@ -433,6 +438,7 @@ def compile_tree(tree, fl, before="N", after="N", collect_groups=None, edges=Fal
     e = b.seq(items, a, fl)
     c.dfa = determinize(b.n, a, e, before, after)
     c.dropped = b.dropped
+    c.cuts = list(b.cuts)
     c.groups = b.groups
     c.tree = items
     if collect_groups is not None:
@@ -815,3 +821,33 @@ def mandatory_groups(pattern) -> set[int]:
                 walk(av, mand)
     walk(tree, True)
     return out
+
+
+def skeleton_dfa(pattern, markers=None) -> DFA:
+    """language of the pattern with every capture group replaced by a one-byte marker (\\x01 for group 1, ...):
+    the literal skeleton that surrounds the groups"""
+    tree, fl, _ = parse(pattern)
+
+    def repl(items):
+        out = []
+        for op, av in items:
+            if op is sc.SUBPATTERN:
+                g, a, d, sub = av
+                if g is not None:
+                    out.append((sc.LITERAL, g if markers is None else markers[g]))
+                else:
+                    out.append((op, (g, a, d, repl(sub))))
+            elif op is sc.BRANCH:
+                out.append((op, (av[0], [repl(x) for x in av[1]])))
+            elif op in (sc.MAX_REPEAT, sc.MIN_REPEAT):
+                out.append((op, (av[0], av[1], repl(av[2]))))
+            else:
+                out.append((op, av))
+        return out
+    # marker literals must not be case-folded: compile without IGNORECASE effect on them (they are control bytes)
+    return compile_tree(repl(tree), fl, "any", "any").dfa
+
+
+def cuts(pattern) -> list:
+    """possessive / atomic constructs in the pattern (they make the search miss texts the language contains)"""
+    return list(compile_pattern(pattern, "any", "any").cuts)
